@@ -1,6 +1,6 @@
 (* the property-level statements of layer L2 and their proofs from the layer's theorems (the Props*.v files only [exact] these) *)
 From stdpp Require Import list numbers option.
-From L2 Require Import Model Base Own Jobs Shape DwInv Pool OpShape Fut Sig Task TaskInv Wake WakeInv Term Complete Susp.
+From L2 Require Import Model Base Own Jobs Shape DwInv Pool OpShape Fut Sig Task TaskInv Wake WakeInv Term Complete Susp Zero ZeroInv ZeroTerm.
 
 (* ---------- C01 ---------- *)
 Definition C01_full : Prop :=
@@ -131,18 +131,36 @@ Definition C07_full : Prop := C07_safety /\ C07_value /\ C07_waker_steps /\ C07_
 Lemma C07_full_main : C07_full.
 Proof. split; [apply C07_safety_main|]. split; [apply C07_value_main|]. split; [apply C07_waker_steps_main|]. split; [apply C07_task_invariant_main|apply C07_complete_main]. Qed.
 
-(* ---------- statements of this layer that are NOT (yet) proved ---------- *)
+(* ---------- zero pool runners ---------- *)
 (* C06 / C07 with ZERO pool runners: one caller that only schedules plain / future jobs and awaits (or detaches) its futures - no
    sync, no suspend - and any number of callers that only fire events: the awaiting caller finishes its script *)
 Definition sigfree (body : list fprim) : Prop := Forall (fun p => match p with PSignal _ => False | _ => True end) body.
 Definition await_only (sc : list cop) : Prop :=
   Forall (fun o => match o with ODesync => True | OFuture body UAwait | OFuture body UDetach => sigfree body | _ => False end) sc.
 Definition fire_only (sc : list cop) : Prop := Forall (fun o => match o with OFire _ => True | _ => False end) sc.
+(* [zero_cond] (ZeroInv.v): three more facts about the generated tables - dequeue never refuses while the state is Running /
+   AwokenWhileRunning; poll of f in WaitingForPoll f takes the queue over; poll answers "wait" only when the queue is owned, in
+   WaitingForWake, or in WaitingForPoll of another future *)
 Definition C06_zero_pool_full : Prop :=
-  forall (T : ftables), all_cond T ->
+  forall (T : ftables), all_cond T -> zero_cond T ->
   forall sc0 others nev tr s, await_only sc0 -> Forall fire_only others ->
   run T (init (sc0 :: others) 0 nev) tr = Some s -> terminal T s -> all_fired s ->
   stacks s !! 0 = Some [FTop []].
+Lemma sigfree_b body : sigfree body -> sigfreeb body = true.
+Proof. unfold sigfree, sigfreeb. induction 1 as [|p r Hp _ IH]; [done|]. cbn. rewrite IH. by destruct p. Qed.
+Lemma await_only_b sc : await_only sc -> forallb awaitb sc = true.
+Proof.
+  unfold await_only. induction 1 as [|o r Ho _ IH]; [done|]. cbn. rewrite IH, andb_true_r.
+  destruct o as [|body u| | |]; try done. destruct u; try done; by apply sigfree_b.
+Qed.
+Lemma fire_only_b sc : fire_only sc -> forallb fireb sc = true.
+Proof. unfold fire_only. induction 1 as [|o r Ho _ IH]; [done|]. cbn. rewrite IH. by destruct o. Qed.
+Lemma C06_zero_pool_main : C06_zero_pool_full.
+Proof.
+  intros T HA HZ sc0 others nev tr s H0 Ho Hr Ht Hf.
+  apply (C06_zero_pool T HA HZ sc0 others nev tr s); [by apply await_only_b| |done..].
+  eapply Forall_impl; [|exact Ho]. intros sc. apply fire_only_b.
+Qed.
 (* the same WITHOUT the side condition on the awaiting caller (any script): refuted, see Examples.C06_zero_pool_needs_side_condition_refuted *)
 Definition C06_zero_pool_any_script : Prop :=
   forall (T : ftables), all_cond T ->
